@@ -78,7 +78,12 @@ QNoRows == {Q(<<T(Agg("count", Star), "c"), T(Agg("sum", cV), "sv"), T(Agg("min"
                wh \in {NoE, Const(Null), Bin("gt", cV, Const(IntV(5)))}}
 
 \* C15: pivot
-QPivot == {Q(tg, NoE, <<RefIdx(g1), RefIdx(g2)>>, NoE, <<>>, pv, FALSE, -1) :
+\* the pivoted rows come out by ascending first key whatever the ORDER BY of the un-pivoted query says
+QPivotOrd == {Q(<<T(cK, "kk"), T(cS, "ss"), T(Agg("sum", cV), "sv")>>, NoE, <<RefIdx(1), RefIdx(2)>>, NoE, od, pv, FALSE, -1) :
+                 od \in {<<O(RefIdx(1), TRUE)>>, <<O(RefE(Col("kk")), TRUE), O(RefIdx(2), FALSE)>>, <<O(RefIdx(2), TRUE)>>, <<O(RefIdx(3), TRUE)>>,
+                         <<O(RefIdx(1), FALSE)>>},
+                 pv \in {<<RefIdx(1), RefIdx(2)>>, <<RefIdx(2), RefIdx(1)>>}}
+QPivot == QPivotOrd \cup {Q(tg, NoE, <<RefIdx(g1), RefIdx(g2)>>, NoE, <<>>, pv, FALSE, -1) :
               tg \in {<<T(cK, "kk"), T(cS, "ss"), T(Agg("sum", cV), "sv")>>,
                       <<T(cK, "kk"), T(cS, "ss"), T(Agg("sum", cV), "sv"), T(Agg("count", Star), "c")>>},
               g1 \in {1}, g2 \in {2},
@@ -89,7 +94,8 @@ QPivot == {Q(tg, NoE, <<RefIdx(g1), RefIdx(g2)>>, NoE, <<>>, pv, FALSE, -1) :
 QPivotInvalid == {
     Q(<<T(cK, "kk"), T(cS, "ss"), T(Agg("sum", cV), "sv")>>, NoE, <<RefIdx(1), RefIdx(2)>>, NoE, <<>>, pv, FALSE, -1) :
         pv \in {<<RefIdx(1), RefIdx(1)>>, <<RefIdx(1), RefIdx(3)>>, <<RefIdx(2), RefIdx(3)>>, <<RefIdx(1), RefIdx(4)>>, <<RefIdx(0), RefIdx(2)>>,
-                <<RefE(Col("zz")), RefIdx(2)>>, <<RefE(Col("kk")), RefE(Col("sv"))>>, <<RefE(Col("ss")), RefE(Col("ss"))>>}}
+                <<RefE(Col("zz")), RefIdx(2)>>, <<RefE(Col("kk")), RefE(Col("sv"))>>, <<RefE(Col("ss")), RefE(Col("ss"))>>,
+                <<RefE(Col("kk")), RefIdx(1)>>, <<RefIdx(2), RefE(Col("ss"))>>, <<RefIdx(1), RefE(Col("kk"))>>}}
     \cup {Q(<<T(cK, "kk"), T(cS, "ss"), T(cV, "vv")>>, NoE, <<>>, NoE, <<>>, <<RefIdx(1), RefIdx(2)>>, FALSE, -1)}
 
 \* C05: invalid statements of every rule (and a few valid neighbours)
@@ -103,6 +109,12 @@ QInvalid == {
     Q(<<T(cK, ""), T(Agg("sum", cV), "sv")>>, NoE, <<RefIdx(0)>>, NoE, <<>>, <<>>, FALSE, -1),
     Q(<<T(cK, ""), T(Agg("sum", cV), "sv")>>, NoE, <<RefIdx(3)>>, NoE, <<>>, <<>>, FALSE, -1),
     Q(<<T(Agg("sum", Agg("count", cV)), "x")>>, NoE, <<>>, NoE, <<>>, <<>>, FALSE, -1),
+    Q(<<T(Agg("sum", Bin("add", cV, Agg("max", cV))), "x")>>, NoE, <<>>, NoE, <<>>, <<>>, FALSE, -1),
+    Q(<<T(Agg("count", Un("neg", Agg("count", Star))), "x")>>, NoE, <<>>, NoE, <<>>, <<>>, FALSE, -1),
+    Q(<<T(Agg("sum", Call("abs", <<Agg("sum", cW)>>)), "x")>>, NoE, <<>>, NoE, <<>>, <<>>, FALSE, -1),
+    Q(<<T(Agg("count", Un("isnull", Agg("sum", cV))), "x")>>, NoE, <<>>, NoE, <<>>, <<>>, FALSE, -1),
+    Q(<<T(cK, ""), T(Agg("sum", cV), "sv")>>, NoE, <<RefE(cK)>>, Bin("gt", Agg("max", Bin("sub", cV, Agg("min", cV))), Const(IntV(0))), <<>>, <<>>, FALSE, -1),
+    Q(<<T(cK, ""), T(Agg("sum", cV), "sv")>>, NoE, <<RefE(cK)>>, NoE, <<O(RefE(Agg("sum", Bin("mul", cV, Agg("count", Star)))), FALSE)>>, <<>>, FALSE, -1),
     Q(<<T(Bin("add", cK, Agg("sum", cV)), "x")>>, NoE, <<>>, NoE, <<>>, <<>>, FALSE, -1),
     Q(<<T(cK, ""), T(cS, ""), T(Agg("sum", cV), "sv")>>, NoE, <<RefE(cK)>>, NoE, <<>>, <<>>, FALSE, -1),
     Q(<<T(cK, ""), T(Agg("sum", cV), "sv")>>, NoE, <<RefE(cK)>>, NoE, <<O(RefE(cS), FALSE)>>, <<>>, FALSE, -1),
